@@ -14,11 +14,14 @@
 //  15 Yield                          16 Join actor A      17 Suspend actor A   18 Resume actor A
 //
 // observation (one line):
-//   ok dl=<0|1> end=<clock> | <actor>;<actor>;... | sem=<v>,<v> | tr=<a>.<i>,... | ex=<a>.<tag>.<failed>@<clock>,...
+//   ok dl=<0|1> end=<clock> | <actor>;<actor>;... | sem=<v>,<v> | tr=<a>.<i>,... | ht=<a>.<i>,... | ex=<a>.<tag>.<failed>@<clock>,... | gx=...
 //   actor := <pc>:<status F|B|K>:<i>.<result>@<clock>,...        (completed operations, in order)
 //   tr    := global order in which operations were *started* (only recorded when contexts/nthreads = 1)
-//   ex    := global order of on_exit callbacks
-// status: F = ran to completion, B = never got past operation <pc> (blocked when the run ended), K = killed by Kill.
+//   ht    := global order in which maestro *handled* the first simcall of each operation (SIMGRID_VERIF hook)
+//   ex    := on_exit callbacks grouped by actor (each actor's in execution order)
+//   gx    := global order of on_exit callbacks (only recorded when contexts/nthreads = 1)
+// status: F = ran to completion, B = never got past operation <pc> (blocked when the run ended), K = target of a Kill.
+// Kill/Suspend/Resume/Join may target finished actors (the ActorPtr is kept): harmless no-ops of the S4U API.
 // Clocks are printed with %.17g (exact binary64).
 #include <simgrid/s4u.hpp>
 #include <simgrid/s4u/Barrier.hpp>
@@ -36,6 +39,7 @@
 #include "drv.hpp"
 
 namespace sg4 = simgrid::s4u;
+extern void (*simgrid_verif_on_simcall_handle)(long pid); // SIMGRID_VERIF hook in ActorImpl::simcall_handle
 
 struct Op {
   long long code, a, b;
@@ -45,22 +49,25 @@ struct Rec {
   long long r;
   double clk;
 };
-struct ActorSt {
-  int host = 0;
-  std::vector<Op> ops;
-  std::vector<Rec> log;
-  int pc        = 0;
-  bool finished = false;
-  bool killed   = false; // target of a Kill op
-  sg4::ActorPtr ptr;
-};
 struct Ex {
   int a;
   long long tag;
   int failed;
   double clk;
 };
-
+struct ActorSt {
+  int host = 0;
+  std::vector<Op> ops;
+  std::vector<Rec> log;
+  int pc        = 0;
+  int cur_op    = -1;    // operation being executed (-1: none)
+  bool hooked   = false; // the first simcall of cur_op has been handled
+  long pid      = -1;
+  bool finished = false;
+  bool killed   = false; // target of a Kill op
+  sg4::ActorPtr ptr;
+  std::vector<struct Ex> exits; // its own on_exit callbacks, in execution order
+};
 static std::vector<ActorSt> A;
 static std::vector<sg4::MutexPtr> M;
 static std::vector<sg4::SemaphorePtr> S;
@@ -68,6 +75,7 @@ static std::vector<sg4::ConditionVariablePtr> CV;
 static std::vector<sg4::BarrierPtr> BA;
 static std::vector<sg4::Mailbox*> MB;
 static std::vector<std::pair<int, int>> trace;
+static std::vector<std::pair<int, int>> handled; // order in which maestro handled the first simcall of each operation
 static std::vector<Ex> exits;
 static bool record_trace = true;
 static bool deadlock     = false;
@@ -80,6 +88,18 @@ static void snapshot()
     sem_snapshot.push_back(s->get_capacity());
 }
 
+static void on_simcall(long pid)
+{
+  for (size_t i = 0; i < A.size(); i++)
+    if (A[i].pid == pid) {
+      if (A[i].cur_op >= 0 && not A[i].hooked) {
+        A[i].hooked = true;
+        handled.emplace_back((int)i, A[i].cur_op);
+      }
+      return;
+    }
+}
+
 static void actor_body(int me)
 {
   ActorSt& st = A[me];
@@ -87,6 +107,8 @@ static void actor_body(int me)
     const Op& op = st.ops[i];
     if (record_trace)
       trace.emplace_back(me, (int)i);
+    st.hooked = false;
+    st.cur_op = (int)i;
     long long r = 0;
     switch (op.code) {
       case 0:
@@ -134,12 +156,15 @@ static void actor_body(int me)
       case 13: {
         long long tag = op.a;
         sg4::this_actor::on_exit([me, tag](bool failed) {
-          exits.push_back({me, tag, failed ? 1 : 0, sg4::Engine::get_clock()});
+          Ex x{me, tag, failed ? 1 : 0, sg4::Engine::get_clock()};
+          A[me].exits.push_back(x);
+          if (record_trace) // the global order is only meaningful (and race free) without parallel workers
+            exits.push_back(x);
         });
         break;
       }
       case 14:
-        if (op.a != me && not A[op.a].finished) {
+        if (op.a != me) {
           A[op.a].killed = true;
           A[op.a].ptr->kill();
         }
@@ -151,16 +176,16 @@ static void actor_body(int me)
         A[op.a].ptr->join();
         break;
       case 17:
-        if (op.a != me && not A[op.a].finished)
+        if (op.a != me)
           A[op.a].ptr->suspend();
         break;
       case 18:
-        if (not A[op.a].finished)
-          A[op.a].ptr->resume();
+        A[op.a].ptr->resume();
         break;
       default:
         break;
     }
+    st.cur_op = -1;
     st.log.push_back({(int)i, r, sg4::Engine::get_clock()});
     st.pc = (int)i + 1;
   }
@@ -192,8 +217,10 @@ static int run_case(const std::vector<long long>& v, int argc, char** argv)
       a.ops.push_back(o);
     }
     a.log.reserve(n + 1);
+    a.exits.reserve(n + 1);
   }
   trace.reserve(1024);
+  handled.reserve(1024);
   exits.reserve(256);
 
   std::vector<char*> args(argv, argv + argc);
@@ -219,6 +246,9 @@ static int run_case(const std::vector<long long>& v, int argc, char** argv)
   auto hosts = e.get_all_hosts();
   for (int i = 0; i < (int)na; i++)
     A[i].ptr = sg4::Actor::create("a" + std::to_string(i), hosts[A[i].host % hosts.size()], [i] { actor_body(i); });
+  for (auto& a : A)
+    a.pid = a.ptr->get_pid();
+  simgrid_verif_on_simcall_handle = on_simcall;
 
   sg4::Engine::on_deadlock_cb([] {
     deadlock = true;
@@ -245,7 +275,18 @@ static int run_case(const std::vector<long long>& v, int argc, char** argv)
   out += " | tr=";
   for (size_t i = 0; i < trace.size(); i++)
     out += (i ? "," : "") + std::to_string(trace[i].first) + "." + std::to_string(trace[i].second);
+  out += " | ht=";
+  for (size_t i = 0; i < handled.size(); i++)
+    out += (i ? "," : "") + std::to_string(handled[i].first) + "." + std::to_string(handled[i].second);
   out += " | ex=";
+  bool first = true;
+  for (auto const& a : A)
+    for (auto const& x : a.exits) {
+      snprintf(buf, sizeof buf, "%s%d.%lld.%d@%.17g", first ? "" : ",", x.a, x.tag, x.failed, x.clk);
+      out += buf;
+      first = false;
+    }
+  out += " | gx=";
   for (size_t i = 0; i < exits.size(); i++) {
     snprintf(buf, sizeof buf, "%s%d.%lld.%d@%.17g", i ? "," : "", exits[i].a, exits[i].tag, exits[i].failed, exits[i].clk);
     out += buf;
